@@ -135,6 +135,45 @@ def _playback(crate_dir: str, harness: str, timeout_s: int) -> Optional[List[Lis
         vals.append([int(x) for x in vm.group(1).replace(" ", "").split(",") if x])
     return vals
 
+def native_playback(crate_dir: str, harness: str, vals: List[List[int]], timeout_s: int = 900) -> dict:
+    """Re-run a Kani counterexample natively: the harness is executed as an ordinary test on the concrete `any()` values,
+    against the function text extracted from /repo for this run (the scratch crate's lib.rs).  Reproduced = the harness
+    assertion (or a panic inside the real function) fires."""
+    lib = os.path.join(crate_dir, "lib.rs")
+    try:
+        src = open(lib, encoding="utf-8").read()
+    except OSError as e:
+        return {"reproduced": None, "note": "scratch crate not found: %s" % e}
+    name = "kani_concrete_playback_%s" % harness
+    vec = ", ".join("vec![%s]" % ", ".join(str(b) for b in v) for v in vals)
+    test = ("\n    #[test]\n    fn %s() {\n        let concrete_vals: Vec<Vec<u8>> = vec![%s];\n"
+            "        kani::concrete_playback_run(concrete_vals, %s);\n    }\n" % (name, vec, harness))
+    k = src.rstrip().rfind("}")
+    if k < 0 or name in src:
+        patched = src
+    else:
+        patched = src[:k] + test + src[k:]
+    open(lib, "w", encoding="utf-8").write(patched)
+    cmd = ["cargo", "kani", "playback", "-Z", "concrete-playback", "--", name]
+    try:
+        p = subprocess.run(cmd, cwd=crate_dir, capture_output=True, text=True, timeout=timeout_s, env=_env())
+    except subprocess.TimeoutExpired:
+        open(lib, "w", encoding="utf-8").write(src)
+        return {"reproduced": None, "note": "native playback timed out"}
+    open(lib, "w", encoding="utf-8").write(src)
+    out = p.stdout + "\n" + p.stderr
+    failed = re.search(r"test result: FAILED|panicked at", out) is not None
+    ran = re.search(r"running 1 test", out) is not None
+    msg = ""
+    m = re.search(r"panicked at [^\n]*\n([^\n]*)", out)
+    if m:
+        msg = m.group(1).strip()
+    if "det vals" in msg or "det vals" in out[-600:]:
+        # the recorded values do not drive this harness to the end (playback artefact): not a reproduction
+        return {"reproduced": None, "command": " ".join(cmd), "panic": msg, "note": "concrete values incomplete for native playback"}
+    return {"reproduced": bool(failed and ran) if ran else None, "command": " ".join(cmd), "panic": msg, "output_tail": out[-600:]}
+
+
 
 def run_group(repo: str, root: str, cache: str, group: str, prop: str, tier: str, timeout_s: int = 1500) -> KaniGroupResult:
     gdir = os.path.join(root, "contracts", "kani", group)
@@ -204,6 +243,8 @@ def run_group(repo: str, root: str, cache: str, group: str, prop: str, tier: str
         for h, r in parsed.items():
             if r["status"] == "FAILED" and meta.get(h, {}).get("kind") != "canary":
                 r["counterexample"] = _playback(crate, h, 600)
+                if r["counterexample"]:
+                    r["native_replay"] = native_playback(crate, h, r["counterexample"])
         os.makedirs(os.path.dirname(cpath), exist_ok=True)
         json.dump(parsed, open(cpath, "w"))
     res.wall_s = time.time() - t0
@@ -218,7 +259,8 @@ def run_group(repo: str, root: str, cache: str, group: str, prop: str, tier: str
                "complete": m["kind"] == "complete", "bound": m.get("why") if m["kind"] == "bounded" else None,
                "unit": m.get("unit"), "replay": m.get("replay"), "cached": cached}
         if r.get("counterexample"):
-            row["counterexample"] = {"harness": h, "kani_any_bytes_in_call_order": r["counterexample"], "scenario": m.get("replay")}
+            row["counterexample"] = {"harness": h, "kani_any_bytes_in_call_order": r["counterexample"], "scenario": m.get("replay"),
+                                     "replayed_natively_on_extracted_real_function": r.get("native_replay")}
         if m["kind"] == "bounded":
             res.bounded.append("kani/%s::%s bounded: %s" % (group, h, m.get("why", "")))
         res.harnesses.append(row)
